@@ -185,8 +185,11 @@ func (r *resWorld) remove(i, style int) {
 	r.w.Resources().Remove(r.ids[i])
 }
 
-// check compares every registered resource with the model through every accessor.
-func (r *resWorld) check() string {
+// check compares every registered resource with the model: always through Resources, and - only
+// when viaMappers is set - through the long-lived generic.Resource mappers and GetResource. How
+// often the mappers are asked is part of the generated history: a mapper that is asked after every
+// single step can never be caught with a stale value.
+func (r *resWorld) check(viaMappers bool) string {
 	res := r.w.Resources()
 	for i := range r.types {
 		if r.types[i] == nil {
@@ -207,7 +210,7 @@ func (r *resWorld) check() string {
 		} else if got != nil {
 			return r.fail("Resources.Get(resource %d) is %v, want nil for an absent resource", i, got)
 		}
-		if i >= nStaticRes {
+		if i >= nStaticRes || !viaMappers {
 			continue
 		}
 		// generic.Resource and GetResource
@@ -283,6 +286,19 @@ func (r *resWorld) apply(op resOp) string {
 			return r.fail("removing present resource %d panicked: %v", i, p)
 		}
 		r.present[i], r.ptr[i] = false, nil
+	case "replace":
+		// Remove and Add of a new value in one step, through generated access styles
+		if msg := r.register(i); msg != "" {
+			return msg
+		}
+		if !r.present[i] {
+			return ""
+		}
+		v := r.newValue(i)
+		if p := core.Call(func() { r.remove(i, op.S); r.add(i, op.S/3, v) }); p != nil {
+			return r.fail("replacing resource %d panicked: %v", i, p)
+		}
+		r.ptr[i] = v
 	case "regcomp":
 		if len(ecs.ComponentIDs(r.w)) < ecs.MaskTotalBits && len(r.queries) == 0 {
 			ecs.TypeID(r.w, core.FillerType(r.compN))
@@ -341,16 +357,19 @@ func runResCase(c *resReplay) string {
 		if msg := r.apply(op); msg != "" {
 			return fmt.Sprintf("op %d %+v: %s", k, op, msg)
 		}
-		if msg := r.check(); msg != "" {
+		if msg := r.check(op.K == "get"); msg != "" {
 			return fmt.Sprintf("after op %d %+v: %s", k, op, msg)
 		}
+	}
+	if msg := r.check(true); msg != "" {
+		return "at the end: " + msg
 	}
 	return ""
 }
 
 func TestC20(t *testing.T) {
 	withStats(t, "C20", func(st *core.Stats) {
-		st.Rule = "sequences of Add/Remove/Get/Has over 4 static resource types (through Resources, generic.Resource and AddResource/GetResource) and up to MaskTotalBits-4 dynamic ones, registered in a generated order interleaved with component-type registrations, entity creation/removal, open queries (world lock) and Reset, with illegal Add-present / Remove-absent injected; after every op every registered resource type is read through every accessor: Has == model, Get == the exact pointer passed to Add (nil when absent), resource IDs dense in their own registry and stable; non-trivial = >= 3 resource types present at some point with a removal in between and a lock or Reset in the history"
+		st.Rule = "sequences of Add/Remove/Get/Has over 4 static resource types (through Resources, generic.Resource and AddResource/GetResource) and up to MaskTotalBits-4 dynamic ones, registered in a generated order interleaved with component-type registrations, entity creation/removal, open queries (world lock) and Reset, with illegal Add-present / Remove-absent injected; after every op every registered resource type is read through Resources, and at generated steps (and at the end) through the long-lived generic.Resource mappers and GetResource as well (a mapper asked after every step could never be caught with a stale value); Remove+Add of a new pointer in one step is an op of its own: Has == model, Get == the exact pointer passed to Add (nil when absent), resource IDs dense in their own registry and stable; non-trivial = >= 3 resource types present at some point with a removal in between and a lock or Reset in the history"
 		limit := ecs.MaskTotalBits
 		if path, ok := replaying(); ok {
 			var r resReplay
@@ -369,11 +388,11 @@ func TestC20(t *testing.T) {
 			npre := rapid.IntRange(0, min(n, 6)).Draw(rt, "npre")
 			c.Order = rapid.Permutation(seqInts(n)).Draw(rt, "order")[:npre]
 			nops := rapid.IntRange(1, 40).Draw(rt, "nops")
-			kinds := []string{"add", "add", "add", "rem", "rem", "illadd", "illrem", "regres", "regcomp", "ent", "ent", "lock", "unlock", "reset", "get"}
+			kinds := []string{"add", "add", "add", "rem", "rem", "illadd", "illrem", "regres", "regcomp", "ent", "ent", "lock", "unlock", "reset", "get", "get", "get", "replace", "replace"}
 			present := map[int]bool{}
 			maxPresent, removals, lockOrReset := 0, 0, false
 			for i := 0; i < nops; i++ {
-				op := resOp{K: rapid.SampledFrom(kinds).Draw(rt, "k"), S: rapid.IntRange(0, 2).Draw(rt, "style")}
+				op := resOp{K: rapid.SampledFrom(kinds).Draw(rt, "k"), S: rapid.IntRange(0, 8).Draw(rt, "style")}
 				// bias to the static types and to a few dynamic ones so that states repeat
 				if rapid.Bool().Draw(rt, "static") || c.NDyn == 0 {
 					op.I = rapid.IntRange(0, nStaticRes-1).Draw(rt, "i")
